@@ -35,6 +35,10 @@ func specialTexts() []Text {
 		"tabs-in-comment":         "packet P {\n    u16 a, //\ttabbed\tcomment  with  spaces   \n}\n",
 		"doc-with-comment-marker": "packet P {\n    u16 a `// not a comment`,\n    u16 b `ends with slash /`,\n}\n",
 	}
+	// a line longer than the 64 KiB a line-oriented reader buffers by default, with declarations after it
+	long := strings.Repeat("x", 70000)
+	raws["long-line-comment"] = "packet A {\n    u8 x,\n}\n// " + long + "\npacket B {\n    u16 y, // tail\n}\n"
+	raws["long-line-doc"] = "packet A {\n    u8 x `" + long + "`,\n    u16 y,\n}\npacket B {\n}\n"
 	for n, raw := range docPositionTexts() {
 		raws[n] = raw
 	}
